@@ -19,8 +19,41 @@ STATES = ("plain", "lazy", "lazy", "consumed", "copy")
 
 
 def fro(x):
+    """Frobenius norm that neither overflows nor underflows for entries ~1e+-200."""
     x = np.asarray(x)
-    return float(np.linalg.norm(x.ravel())) if x.size else 0.0
+    if not x.size:
+        return 0.0
+    m = float(np.max(np.abs(x)))
+    if m == 0 or m != m or m == float("inf"):
+        return m
+    return m * float(np.linalg.norm((x / m).ravel()))
+
+
+def norm_of(values):
+    """sqrt(sum v^2) of an iterable of (value, multiplicity), overflow-safe."""
+    vals = [(abs(float(v)), n) for v, n in values if n > 0 and v != 0]
+    if not vals:
+        return 0.0
+    m = max(v for v, _ in vals)
+    return m * float(np.sqrt(sum((v / m) ** 2 * n for v, n in vals)))
+
+
+SCALES = (1e-200, 1e-150, 1e-60, 1e60, 1e150, 1e200)
+
+
+def draw_scale(rng, p=0.12):
+    """1.0, or with probability p an extreme but legal overall factor (all clauses are relative)."""
+    return rng.choice(SCALES) if rng.random() < p else 1.0
+
+
+def scaled(ht, c):
+    return ht if c == 1.0 else ht.map_values(lambda v: v * c, ht.dtype)
+
+
+def pending_noninvolutive(y):
+    """The tensor carries a pending lazy transpose that is not its own inverse (contains a cycle of length >= 3)."""
+    tr = tuple(y.trans)
+    return any(tr[tr[i]] != i for i in range(len(tr)))
 
 
 def mat_last(arr):
